@@ -112,11 +112,13 @@ def run_unit(args):
                 sym_obs = [(k, H.conc(v, model)) for k, v in ctx.obs]
                 fails, robs, err = H.run_real(body, real, shape, inputs)
                 real_obs = [(k, H.plain(v)) for k, v in robs]
-                if err is None and not fails and sym_obs != real_obs:
+                if err is None and sym_obs != real_obs:
                     res["engine_faults"].append(
                         {"inputs": H.jsonable(inputs), "sym": H.jsonable(sym_obs), "real": H.jsonable(real_obs)}
                     )
-                elif err is None:
+                elif err == "assumption-failed":
+                    res["engine_faults"].append({"inputs": H.jsonable(inputs), "note": "assumption holds symbolically but fails on the real run"})
+                else:
                     res["validated"] += 1
                 for label, detail in fails:
                     sg = _sig(label, detail)
